@@ -80,6 +80,10 @@ type Feat struct {
 	RefuseMono  bool  `json:"refuse_mono,omitempty"` // monolithic PUT refused
 	Early201    bool  `json:"early201,omitempty"`    // PATCH answers 201
 	RangeBytes  bool  `json:"range_bytes,omitempty"` // upload Range headers spelled "bytes=0-N" (Docker registry API) instead of "0-N"
+	// DataRedirect (0 none | 307 | 308): every upload request that carries data (PATCH / PUT with a body) is first
+	// answered with that redirect to the same URL plus a marker parameter (a front end passing uploads on); method
+	// and body are kept by these two statuses, the request is then served normally
+	DataRedirect int `json:"data_redirect,omitempty"`
 }
 
 // FaultSpec is one transient failure.
@@ -758,28 +762,29 @@ func (s layoutStore) get(dig string) ([]byte, bool) {
 
 // env is one prepared case.
 type env struct {
-	c         Case
-	cf        caseFacts
-	m         *rm.Model // nil for a layout destination without registry source
-	rc        *regclient.RegClient
-	tgt       ref.Ref
-	st        store
-	sigPrefix string
-	ctx       context.Context
-	cancel    context.CancelFunc
-	fired     *bool // the generated cancellation has happened
-	cleanup   []func()
-	locStyle  int
-	enforce   bool
-	preseed   bool
-	auth      bool
-	hostName  string
-	storeRepo string
-	srcRef    ref.Ref // copy entries
-	srcPut    func(dig string, data []byte) error
-	prevErr   bool // an earlier upload of this case returned an error
-	backoffs  int // injected failures and refusals delivered so far (they add up in the per-host backoff state)
-	dirty     bool
+	c            Case
+	cf           caseFacts
+	m            *rm.Model // nil for a layout destination without registry source
+	rc           *regclient.RegClient
+	tgt          ref.Ref
+	st           store
+	sigPrefix    string
+	ctx          context.Context
+	cancel       context.CancelFunc
+	fired        *bool // the generated cancellation has happened
+	cleanup      []func()
+	locStyle     int
+	enforce      bool
+	dataRedirect bool // data-carrying upload requests are answered with a 307/308 first
+	preseed      bool
+	auth         bool
+	hostName     string
+	storeRepo    string
+	srcRef       ref.Ref // copy entries
+	srcPut       func(dig string, data []byte) error
+	prevErr      bool // an earlier upload of this case returned an error
+	backoffs     int  // injected failures and refusals delivered so far (they add up in the per-host backoff state)
+	dirty        bool
 }
 
 func (e *env) close() {
@@ -885,6 +890,24 @@ func setup(c Case) (*env, error) {
 		// a registry that announced a minimum chunk length may insist on it: once a further PATCH shows
 		// that the previous chunk was not the final one, a previous chunk below the minimum is an error.
 		// Not combined with partial acceptance (the remainder of a partly accepted chunk is legitimately short).
+		// (not with the deepening relocation wrapper, which rewrites paths outside the model; a PUT is only redirected
+		// when its body can be sent again: chunks are buffered by the client, a streamed source cannot be replayed)
+		// Only for BlobPut from the caller's own stream: with a BlobCopy source every replay of the body is a new read
+		// of the source registry, whose own retry budget then decides the outcome (observed with one injected 500).
+		if st := c.Feat.DataRedirect; (st == 307 || st == 308) && e.locStyle != 6 && cf.entry == "put" {
+			e.dataRedirect = true
+			intercepts = append(intercepts, func(en *rm.Entry, req *http.Request) *rm.Resp {
+				if !(en.Class == "upload-patch" || (en.Class == "upload-put" && cf.rewindable)) || len(en.Body) == 0 || strings.Contains(en.RawQuery, "rdok=1") {
+					return nil
+				}
+				q := "rdok=1"
+				if en.RawQuery != "" {
+					q = en.RawQuery + "&rdok=1"
+				}
+				en.Note = "data-carrying upload request redirected"
+				return &rm.Resp{Status: st, Header: http.Header{"Location": {req.URL.Scheme + "://" + req.URL.Host + en.Path + "?" + q}}, TruncateAt: -1}
+			})
+		}
 		e.enforce = c.Feat.EnforceMin && c.Feat.ChunkMin > 0 && len(cf.accept) == 0
 		if e.enforce {
 			prevLen := map[string]int{}
@@ -1499,6 +1522,9 @@ func check(c Case, ev *evid.Collector) *evid.Violation {
 		}
 		if e.enforce {
 			classes = append(classes, "chunk-min-enforced")
+		}
+		if e.dataRedirect {
+			classes = append(classes, fmt.Sprintf("data-request-redirected-%d", c.Feat.DataRedirect))
 		}
 		if c.Feat.RangeBytes {
 			classes = append(classes, "range-bytes-prefix")
